@@ -64,6 +64,15 @@ def gen_cases(tier, seed):
         q = [float(x) for x in np.exp(rng.uniform(np.log(0.1), np.log(100), size=nq))]
         cases.append({"shells": shells, "points": pts, "charges": q, "eri": eri, "classes": classes + ["eri" if eri else "1e", "nsh:%d" % nsh, "types:" + "".join(tp)],
                       "cost": (sum(bases.nfunc(s) for s in shells) ** 4 / 20 if eri else nsh * nsh * 10)})
+    # many positive charges in one call (a grid of charges): every slice must still be negative semi-definite
+    for i, N in enumerate((300, 1100) if tier == "quick" else (300, 520, 1100, 2600, 4200)):
+        rng = bases.rng_for("C17", seed, tier, "many", N)
+        ls = [[0, 1, 2], [1, 2], [2, 0, 1, 1]][i % 3]
+        tp = list(bases.type_patterns(len(ls))[(i * 3 + 1) % len(bases.type_patterns(len(ls)))])
+        shells, classes = bases.rand_basis(rng, ls, types=tp, emin=0.1, emax_fn=lambda l: 20.0, Kmax=3, Mmax=2, scale=1.2)
+        pts = (rng.normal(size=(N, 3)) * 2.0).tolist()
+        q = [float(x) for x in np.exp(rng.uniform(np.log(0.1), np.log(100), size=N))]
+        cases.append({"shells": shells, "points": pts, "charges": q, "eri": False, "classes": classes + ["1e", "many-charges:%d" % N, "nsh:%d" % len(ls), "types:" + "".join(tp)], "cost": 200 + N})
     return cases
 
 
